@@ -34,10 +34,10 @@ PLAN = {'quick': {'gen': 8}, 'thorough': {'gen': 16, 'tests': 1}}
 REQUIRED_BUCKETS = ['op:Plane()', 'op:Pupil(mask3d)', 'op:multiply', 'op:propagate_dft', 'op:propagate_fft', 'op:fit_tilt',
                     'op:rescale', 'op:adc', 'op:collect_charge', 'op:collect_charge_bayer', 'op:tilt-multiply', 'op:Field(ndarray offset)', 'op:Plane.properties', 'op:pixel', 'op:jitter', 'op:smear',
                     'op:dft2', 'op:idft2', 'op:zernike_fit', 'op:pad', 'op:rebin', 'op:power_spectrum', 'op:Spectrum.multiply',
-                    'op:Spectrum.sample', 'op:Spectrum.bin', 'op:shot_noise', 'op:read_noise', 'program', 'dft-keys>32',
+                    'op:Spectrum.sample', 'op:Spectrum.bin', 'op:Spectrum.to', 'op:shot_noise', 'op:read_noise', 'program', 'dft-keys>32',
                     'replayed']
 REQUIRED_ANCHORS = ['anchor:_dft2_coords', 'anchor:Plane.__init__', 'anchor:adc', 'anchor:Plane.fit_tilt', 'anchor:Field.__mul__']
-REQUIRED_ORACLES = ['frozen-inputs', 'inputs-unchanged', 'history-deterministic', 'global-rng-untouched', 'dft-cache-intact',
+REQUIRED_ORACLES = ['frozen-inputs', 'inputs-unchanged', 'history-deterministic', 'global-rng-untouched', 'global-state-untouched', 'dft-cache-intact',
                     'path-independent']
 
 
@@ -402,6 +402,22 @@ def catalogue(lentil, rng):
         wa = np.linspace(wa[0], wa[-1] + 5, na); wb = np.linspace(wb[0], wb[-1] + 5, nb)
         return ({'wa': wa * ua[1], 'va': rng.uniform(0.1, 1, na), 'wb': wb * ub[1], 'vb': rng.uniform(0.1, 1, nb)}, ua[0], ub[0])
 
+    @op('Spectrum.to')
+    def _():
+        a, ua, ub = spectra()
+        def call(a):
+            # spectra derived from A by scalar arithmetic, one of which is then converted to other wavelength / flux units:
+            # A, its siblings and the caller's arrays stay as they were
+            A = R.Spectrum(a['wa'], a['va'], waveunit=ua, valueunit='photlam')
+            B, C, D_ = A * 0.8, A ** 2, A + 1.0
+            fa, fc = probe.fingerprint(A), probe.fingerprint(C)
+            to = {'nm': 'um', 'um': 'angstrom', 'angstrom': 'nm'}[ua]
+            B.to(to)
+            D_.to('flam')
+            r = (B, C, D_, A.sample(a['wa'][:3], waveunit=ua))
+            return r, [('spectrum-a', fa, probe.fingerprint(A)), ('spectrum-c', fc, probe.fingerprint(C))]
+        return a, call
+
     for name in ('Spectrum.multiply', 'Spectrum.add', 'Spectrum.sample', 'Spectrum.bin', 'Spectrum.integrate'):
         def build(name=name):
             a, ua, ub = spectra()
@@ -445,7 +461,14 @@ def run_op(ctx, name, args, call, phase):
         with warnings.catch_warnings():
             warnings.simplefilter('ignore')
             with np.errstate(all='ignore'):
-                out = call(args)
+                e0, p0 = dict(np.geterr()), dict(np.get_printoptions())
+                try:
+                    out = call(args)
+                finally:
+                    e1, p1 = dict(np.geterr()), dict(np.get_printoptions())
+                    ctx.check(e0 == e1 and p0 == p1, 'global-state-untouched', f'global-state|{name}',
+                              f'{name} left numpy\'s process-wide floating-point error mode / print options changed',
+                              {'op': name, 'before': e0, 'after': e1})
     except Exception as e:
         tb = traceback.extract_tb(e.__traceback__)
         site = next((f'{f.filename.split("/lentil/")[-1]}:{f.name}' for f in reversed(tb) if '/lentil/' in f.filename), 'harness')
